@@ -31,6 +31,9 @@ Falsified(e) ==
     ELSE IF e.ev = "Inc" THEN
              When(e.out = "panic", "C17_Total")
         \cup When(e.out # "panic" /\ ~IncOK(e.has, e.p, e.outhas, e.outp), "C17_AcceptsExactly")
+    \* the parsed range walked against the ports other services record (none here): an answer, never a crash
+    ELSE IF e.ev = "Avail" THEN
+             When(e.out # "ok", "C17_Total")
     ELSE {"Malformed"}
 
 Init == l = 1 /\ viol = {}
